@@ -209,6 +209,9 @@ pub fn proto_worlds(tier: Tier, with_foreach: bool, with_sources: bool) -> Vec<W
         }));
     }
     for n in crate::worlds::NETS {
+        if n.starts_with("for_each(") && !with_foreach {
+            continue;
+        }
         v.extend(with_bounds(Op::Net(n), tier, |s| {
             if s.name.contains("share") {
                 s.cfg.max_probes = 2;
@@ -219,7 +222,7 @@ pub fn proto_worlds(tier: Tier, with_foreach: bool, with_sources: bool) -> Vec<W
             }
             // late greeting only for puppets that are (through tolerant pass-through stages) direct
             // members of a merge whose output is not behind share/concat
-            if s.name.contains("take2(merge2)") || s.name.contains("merge2(map,skip1)") {
+            if s.name.contains("take2(merge2)") || s.name.contains("merge2(map,skip1)") || s.name.contains("for_each(merge2)") {
                 s.cfg.late = vec![true, true, false];
             } else if s.name.contains("merge2(.,concat2)") {
                 s.cfg.late = vec![true, false, false];
